@@ -231,7 +231,8 @@ class Channel(BaseChannel):
         self.check_for_exceptions()
 
         if self.is_closed:
-            # The reason may have been recorded after the check above.
+            # The reason may have been recorded after the checks above.
+            self._connection.check_for_errors()
             self.check_for_exceptions()
             raise AMQPChannelError('channel closed')
 
